@@ -11,7 +11,7 @@ def main():
         if sub not in p:
             continue
         st, out = mutate.run_on_patch(prop, p)
-        rules = sorted(set(re.findall(r"rule=(\S+) function=(\S+) instance=(\S+)", out)))
+        rules = sorted(set(re.findall(r"rule=(\S+) function=(.+?) instance=(\S+)", out)))
         print("%-55s %-12s %s" % (os.path.basename(p), st, "; ".join("%s:%s:%s" % (r, f.split("::")[-1], i) for r, f, i in rules)[:200]))
         if st != "flagged":
             bad += 1
